@@ -5,6 +5,7 @@ they reach handlers.
 """
 
 import asyncio
+import posixpath
 import time
 from dataclasses import dataclass, field
 from ipaddress import (
@@ -14,7 +15,7 @@ from ipaddress import (
     ip_network,
 )
 from typing import Protocol
-from urllib.parse import urlparse
+from urllib.parse import unquote, urlsplit
 
 
 class Middleware(Protocol):
@@ -342,13 +343,25 @@ class CertificateAuth:
             request_url: The full request URL.
 
         Returns:
-            The path component of the URL, or "/" if none.
+            The canonical path component of the URL, or "/" if none.
         """
         try:
-            parsed = urlparse(request_url)
-            return parsed.path or "/"
+            path = urlsplit(request_url).path or "/"
         except Exception:
             return "/"
+        return self._canonical_path(path)
+
+    @staticmethod
+    def _canonical_path(path: str) -> str:
+        """Canonical location a path denotes in the served tree.
+
+        Rules must be matched against the resource that is actually served, not
+        against one particular spelling of it: percent-escapes are decoded and
+        empty, "." and ".." segments are resolved, exactly as the file lookup does
+        ("//admin/x", "/./admin/x", "/pub/../admin/x" and "/%61dmin/x" all serve
+        "/admin/x").
+        """
+        return posixpath.normpath("/" + unquote(path).lstrip("/"))
 
     def _find_matching_rule(self, path: str) -> CertificateAuthPathRule | None:
         """Find the first matching path rule.
@@ -360,7 +373,10 @@ class CertificateAuth:
             The first matching rule, or None if no rule matches.
         """
         for rule in self.config.path_rules:
-            if path.startswith(rule.prefix):
+            prefix = self._canonical_path(rule.prefix)
+            # Match whole segments: "/admin/" covers "/admin" and "/admin/x",
+            # but not "/administrator"
+            if prefix == "/" or path == prefix or path.startswith(prefix + "/"):
                 return rule
         return None
 
